@@ -6,8 +6,8 @@ import (
 	"fmt"
 	"strings"
 
-	"github.com/taskctl/taskctl/vrt"
 	"github.com/taskctl/taskctl/pkg/output"
+	"github.com/taskctl/taskctl/vrt"
 )
 
 func resetOutput() { output.VerifReset() }
@@ -79,16 +79,23 @@ func judge(sc *Scenario, x *vrt.Execution) []verdict {
 	runRet := map[string]string{}
 	runCalls := map[string]int{}
 	cancelReturned := false
+	inCommand := map[int]string{} // thread -> command it is inside
 	for _, e := range x.Events {
 		switch e.Kind {
 		case "tok":
 			toks[e.Arg] = true
 			count[e.Arg]++
+			inCommand[e.T] = e.Arg
 			if cancelReturned {
 				add("C12", "C12:command-after-cancel-returned", fmt.Sprintf("command %q started after a Cancel call had returned", e.Arg))
 			}
+		case "tokend":
+			delete(inCommand, e.T)
 		case "cancel.ret":
 			cancelReturned = true
+			for _, c := range inCommand {
+				add("C12", "C12:command-running-after-cancel-returned", fmt.Sprintf("Cancel returned while command %q was still running", c))
+			}
 		case "run.call":
 			runCalls[e.Arg]++
 		case "run.ret":
